@@ -34,7 +34,7 @@ def pick_unit(rng, boundary_p: float = 0.25) -> float:
 def pick_phase(rng) -> float:
     if rng.random() < 0.2:
         v = rng.choice([0.0, math.pi, 2 * math.pi, -math.pi / 2, 4 * math.pi, -2 * math.pi, TINY, 1e6, -123456.789,
-                        3.0, -1.0, 0.0])
+                        3.0, -1.0, 0.0, 1e9, -7e12, 1e16, 123456789012.5])      # huge phases are phases too
         if float(v).is_integer() and rng.random() < 0.5:
             return int(v)
         return float(v)
@@ -167,7 +167,8 @@ class Builder:
         rng = self.rng
         n = self.numbered(c) if n is None else n
         kinds = [k for k in ("bs", "ps", "loss", "barrier", "swaps", "unitary") if k in self.allow]
-        w = {"bs": 4, "ps": 2, "loss": 1.2, "barrier": 0.4, "swaps": 1.2, "unitary": 1.0}
+        w = {"bs": 4, "ps": 2, "loss": 1.2 if not getattr(self, "long_program", False) else 0.02, "barrier": 0.4,
+             "swaps": 1.2, "unitary": 1.0}
         if n < 2:
             kinds = [k for k in kinds if k not in ("bs",)]
         p = np.array([w[k] for k in kinds])
@@ -366,6 +367,16 @@ class Builder:
             group = bool(rng.random() < group_p)
             if self.on_add is not None:
                 self.on_add(c, child, m, group)
+            if rng.random() < 0.08:
+                # first a placement that does not fit (must be refused and leave no trace), then the legal one
+                bad = nn - k + int(rng.integers(1, 3)) if rng.random() < 0.8 else -int(rng.integers(1, nn + 2)) - nn
+                self.last = ['add_that_does_not_fit', sub_log, bad, group, self.state(c)]
+                try:
+                    c.add(child, bad, group)
+                    log.append(["add_that_does_not_fit_was_accepted", sub_log, bad, group])
+                except Exception as e:  # noqa: BLE001
+                    log.append(["add_refused", bad, type(e).__name__])
+                    self.refused_adds = getattr(self, "refused_adds", 0) + 1
             self.last = ['add', sub_log, m, group, self.state(c)]
             c.add(child, self.F(m), group)
             log.append(["add", sub_log, m, group])
